@@ -29,4 +29,34 @@ theorem announced_type_exact_or_flagged (name : String) :
   · left; exact ⟨rfl, by assumption⟩
   · right; rfl
 
+/-- the same statement for the EXECUTABLE model (`rowG`, the definition the driver evaluates next to
+    `nibabel_image_to_info` on every run), over any field: row `r` of the generated transform is
+    `[R₀, R₁, R₂, t']` and maps the corner-based coordinate of the centre of voxel `i` to
+    `10^6·(A·i + t)`, for every affine and non-zero voxel sizes -/
+theorem generated_row_maps_voxel_centres {K : Type} [Field K] (a : Nat → Nat → K) (t v i : Nat → K) (c : K)
+    (h0 : v 0 ≠ 0) (h1 : v 1 ≠ 0) (h2 : v 2 ≠ 0) (r : Nat) :
+    ∃ R0 R1 R2 t', rowG a t v (c / 2) c 0 r = [R0, R1, R2, t'] ∧
+      R0 * ((i 0 + 1/2) * (c * v 0)) + R1 * ((i 1 + 1/2) * (c * v 1)) + R2 * ((i 2 + 1/2) * (c * v 2)) + t'
+        = c * (a r 0 * i 0 + a r 1 * i 1 + a r 2 * i 2 + t r) :=
+  rowG_maps_centre a t v i c h0 h1 h2 r
+
+/-- and the driver's own rational arithmetic is sound: the row it computes over `Q` (numerator /
+    denominator pairs), read in ℚ, IS the row of the formula over ℚ — for all inputs with non-zero
+    denominators and positive voxel sizes. Together with the previous theorem (at `K = ℚ`) this is the
+    half-voxel statement about exactly the numbers the driver prints and the harness compares with the
+    matrix written by the real code. -/
+theorem generated_row_arithmetic_sound (a : Nat → Nat → Q) (t v : Nat → Q) (half million zero : Q) (r : Nat)
+    (ha : ∀ r c, (a r c).d ≠ 0) (ht : ∀ r, (t r).d ≠ 0) (hv : ∀ c, (v c).d ≠ 0 ∧ 0 < (v c).n)
+    (hh : half.d ≠ 0) (hm : million.d ≠ 0) (hz : zero.d ≠ 0) :
+    (rowG a t v half million zero r).map Q.val =
+      rowG (fun r c => (a r c).val) (fun r => (t r).val) (fun c => (v c).val) half.val million.val zero.val r :=
+  rowG_val a t v half million zero r ha ht hv hh hm hz
+
+/-- non-vacuity and a concrete instance on the list-level entry point the driver calls: identity
+    affine with 2 mm voxels and translation (10, 20, 30) mm gives R = diag(½) and t' = 10^6·t − 10^6/2·… -/
+example : (neuroglancerTransform
+    [⟨2, 1⟩, ⟨0, 1⟩, ⟨0, 1⟩, ⟨10, 1⟩, ⟨0, 1⟩, ⟨2, 1⟩, ⟨0, 1⟩, ⟨20, 1⟩, ⟨0, 1⟩, ⟨0, 1⟩, ⟨2, 1⟩, ⟨30, 1⟩]
+    [⟨2, 1⟩, ⟨2, 1⟩, ⟨2, 1⟩]).map (fun q => (q.n / q.d : Int))
+    = [1, 0, 0, 9000000, 0, 1, 0, 19000000, 0, 0, 1, 29000000] := by decide
+
 end NgVerif.Props.C16
